@@ -158,7 +158,7 @@ def run(run):
     profile = {
         "kinds": {"int": 50, "data": 28, "bits": 6, "ref": 8, "sel": 4, "em": 1},
         "int_widths": [1, 1, 2, 2, 4, 4, 8, 3, 5, 1, 2, 16],
-        "p_rep": 0.1, "p_opt": 0.07, "p_move": 0.07, "p_class_endianness": 0.35, "max_fields": 7,
+        "p_rep": 0.1, "p_opt": 0.07, "p_move": 0.07, "p_class_endianness": 0.35, "max_fields": 7, "p_describe": 0.15,
     }
     run.extra["variants"] = {k: v for k, v in variants.items()}
     sampled = 0
